@@ -29,10 +29,20 @@ pub struct St {
     entry: Option<Entry>,
 }
 
+/// the screen mode a sequence switches, when it names exactly one of 47/1047/1049
+/// (other, also unimplemented, mode numbers in the same list do not matter)
 fn mode_of(cmd: &Cmd) -> Option<(bool, u32)> {
+    let pick = |v: &Vec<u32>| {
+        let s: Vec<u32> = v.iter().copied().filter(|m| matches!(m, 47 | 1047 | 1049)).collect();
+        if s.len() == 1 {
+            Some(s[0])
+        } else {
+            None
+        }
+    };
     match cmd {
-        DecSet(v) if v.len() == 1 && matches!(v[0], 47 | 1047 | 1049) => Some((true, v[0])),
-        DecRst(v) if v.len() == 1 && matches!(v[0], 47 | 1047 | 1049) => Some((false, v[0])),
+        DecSet(v) => pick(v).map(|m| (true, m)),
+        DecRst(v) => pick(v).map(|m| (false, m)),
         _ => None,
     }
 }
@@ -55,6 +65,10 @@ impl System for Sys {
         let pre_size = st.vt.size();
         let _ = apply(&mut st.vt, op);
         let now_alt = st.vt.verif_state().alternate_active;
+        // which screen SHOULD be showing follows from the commands alone (the alphabet has
+        // no truncated sequences): a requested switch that does not happen, or a switch
+        // nobody requested, breaks "every entry presents ..." / "nothing done while ..."
+        let should_alt = super::common::ghost_alt(was_alt, &op.cmd);
         let mut dummy = Out::default();
         let judging = out.is_some();
         let out = match out {
@@ -64,6 +78,19 @@ impl System for Sys {
         if judging {
             if let Some(why) = geometry_broken(&st.vt, st.want) {
                 out.violate("C16", "geometry", why);
+                return;
+            }
+            if should_alt != now_alt {
+                out.violate(
+                    "C16",
+                    "screen-switch",
+                    format!(
+                        "after {:?} the {} screen is showing, the commands call for the {} screen",
+                        op.cmd,
+                        if now_alt { "alternate" } else { "primary" },
+                        if should_alt { "alternate" } else { "primary" }
+                    ),
+                );
                 return;
             }
         }
@@ -225,6 +252,19 @@ fn alpha(cfg: &Cfg) -> Vec<Op> {
         Op::new(Inert("\x1b c".into())),
         Op::new(Inert("\x1b#c".into())),
         Op::new(Inert("\x1b 8".into())),
+        // near misses of the switching sequences: malformed or not private, they switch nothing
+        Op::new(Inert("\x1b[?1049?l".into())),
+        Op::new(Inert("\x1b[?10?49l".into())),
+        Op::new(Inert("\x1b[1049l".into())),
+        Op::new(Inert("\x1b[?1049$l".into())),
+        Op::new(Inert("\x1b[>47l".into())),
+        Op::new(Inert("\x1b[?47?h".into())),
+        Op::new(Inert("\x1b[1049h".into())),
+        // mode lists in which an unimplemented number comes first
+        c(DecSet(vec![2004, 1049])),
+        c(DecRst(vec![12, 1049])),
+        c(DecSet(vec![1004, 47])),
+        c(DecRst(vec![2004, 1047])),
     ];
     for (cc, r) in [(cfg.cols + 1, cfg.rows), (cfg.cols.max(2) - 1, cfg.rows), (cfg.cols, cfg.rows + 1), (cfg.cols, cfg.rows.max(2) - 1)] {
         v.push(Op::resize(cc, r));
@@ -293,11 +333,14 @@ macro_rules! parts {
     }};
 }
 
+static SYS_MODES: LockStep = LockStep { property: "C16", probes: false, seed: None };
+
 pub fn run(ctx: &Ctx) -> Report {
     let mut rep = Report::new();
     let (frame, ls) = parts!(ctx.tier);
     run_part(ctx, &mut rep, &frame);
     run_part(ctx, &mut rep, &ls);
+    run_part(ctx, &mut rep, &super::sweep::mode_part(&SYS_MODES, ctx.tier));
     rep.rule = "BFS over histories mixing primary-screen edits, entry by 47/1047/1049, everything executable on the alternate screen (prints, scrolls, IL/DL, ED/EL, DECALN, ICH/DCH, margins, save/restore, DECSTR, RI), exit by 47/1047/1049 and four resizes; frame oracle: blank alternate screen in the current pen on entry, text() constant throughout, primary lines() identical after leaving (size unchanged) or re-wrapped-not-altered by the C10 relation (size changed), 1049 pair restores the cursor; plus a lock-step run of the buffer switches against the reference terminal; non-trivial = calls executed while the alternate screen is showing".into();
     rep.assumptions = vec![
         "which screen is showing is read through the verif hook".into(),
@@ -311,6 +354,7 @@ pub fn replay(ctx: &Ctx, v: &Value) -> bool {
     let (frame, ls) = parts!(tier);
     match v["part"].as_str().unwrap_or("") {
         "excursions-frame-oracle" => replay_part(ctx, &frame, v),
+        "mode-list-shapes" => replay_part(ctx, &super::sweep::mode_part(&SYS_MODES, tier), v),
         _ => replay_part(ctx, &ls, v),
     }
 }
